@@ -74,6 +74,7 @@ type interpreter struct {
 	natives        map[string]func(args []string) string
 	mapRanges      int // ranges over maps with >= 2 entries started on this path
 	reverseRange   int // the mapRanges-th such range iterates in reverse insertion order (0 = none)
+	jsonDecs       map[*value]*jsonDecState
 }
 
 type deferred struct {
